@@ -594,21 +594,8 @@ func inLoopBoundedByLen(site ssa.Instruction, param ssa.Value) bool {
 			continue
 		}
 		bin, ok := iff.Cond.(*ssa.BinOp)
-		if !ok || bin.Op != token.LSS {
+		if !ok || bin.Op != token.LSS || !isLenOf(bin.Y, param) {
 			continue
-		}
-		call, ok := bin.Y.(*ssa.Call)
-		if !ok {
-			continue
-		}
-		if bi, ok := call.Call.Value.(*ssa.Builtin); !ok || bi.Name() != "len" || len(call.Call.Args) != 1 {
-			continue
-		}
-		arg := call.Call.Args[0]
-		if arg != param {
-			if ld, ok := arg.(*ssa.UnOp); !ok || ld.Op != token.MUL || !isCellOf(ld.X, param) {
-				continue
-			}
 		}
 		// the loop body (true successor) must dominate the site and the site's block must reach back to b
 		if b.Succs[0].Dominates(site.Block()) && reaches(site.Block(), b) {
